@@ -65,7 +65,10 @@ def transfer_routing(m, t, tier, only=None):
     rnd = pyrandom.Random(7 * m + t)
     graphs = [[]] + [[a] for a in arcs_all[: 6 if tier == 'quick' else 16]]
     for _ in range(12 if tier == 'quick' else 60):
-        graphs.append(sorted(set(rnd.sample(arcs_all, rnd.randint(1, min(len(arcs_all), 5))))))
+        g0 = rnd.sample(arcs_all, rnd.randint(1, min(len(arcs_all), 5)))
+        graphs.append(sorted(set(g0)))
+        graphs.append(list(g0))                      # arcs in arbitrary order: a receiver's values come in the order its senders are LISTED
+        graphs.append(sorted(set(g0), reverse=True))
     for g in graphs:
         cases.append(('pairs', g, None))
         d = {a: [b for a2, b in g if a2 == a] for a in range(m)}
